@@ -182,6 +182,41 @@ GetItem(n, t1, t2) ==
                ELSE [act |-> "GetItem", lhs |-> n, t1 |-> t1, t2 |-> t2, raises |-> "",
                      out |-> [l \in Li |-> Data(n)[l][t1][t2]]]
 
+\* ---- accessors by index and iteration (no type names involved)
+\* n.get(i, j): indices from 0; an index >= rank is refused (AssertionError)
+GetIdx(n, i, j) ==
+    /\ steps < MaxSteps /\ Exists(n)
+    /\ UNCHANGED <<heap, obj>> /\ steps' = steps + 1
+    /\ last' = IF i >= R \/ j >= R
+               THEN [act |-> "GetIdx", lhs |-> n, i |-> i, j |-> j, raises |-> "AssertionError"]
+               ELSE [act |-> "GetIdx", lhs |-> n, i |-> i, j |-> j, raises |-> "",
+                     out |-> [l \in Li |-> Data(n)[l][i + 1][j + 1]]]
+
+\* n.getMatrix(l): the l-th matrix (index from 0)
+GetMatrix(n, l) ==
+    /\ steps < MaxSteps /\ Exists(n)
+    /\ UNCHANGED <<heap, obj>> /\ steps' = steps + 1
+    /\ last' = [act |-> "GetMatrix", lhs |-> n, l |-> l - 1, raises |-> "", out |-> Data(n)[l]]
+
+\* n.setMatrix(l, SetMat): only matrix l changes, every object sharing the buffer sees it
+SetMat == [i \in Ri |-> [j \in Ri |-> IF i = j THEN <<5, 1>> ELSE <<3, 2>>]]
+SetMatrix(n, l) ==
+    /\ steps < MaxSteps /\ Exists(n)
+    /\ Commit([heap EXCEPT ![obj[n].buf] = [Data(n) EXCEPT ![l] = SetMat]], obj)
+    /\ last' = [act |-> "SetMatrix", lhs |-> n, l |-> l - 1, raises |-> ""]
+
+\* for (i,j),(t1,t2),f in n.iterpairs()  [itercurve() is the deprecated alias]: every unordered pair once, upper triangle,
+\* in type-list (row-major) order, with the pair function as it is stored
+UpperPairs == LET all == [q \in 1 .. R * R |-> <<((q - 1) \div R) + 1, ((q - 1) % R) + 1>>]
+              IN  SelectSeq(all, LAMBDA p : p[1] <= p[2])
+IterPairs(n, deprecated) ==
+    /\ steps < MaxSteps /\ Exists(n)
+    /\ UNCHANGED <<heap, obj>> /\ steps' = steps + 1
+    /\ last' = [act |-> "IterPairs", lhs |-> n, deprecated |-> deprecated, raises |-> "",
+                out |-> [q \in 1 .. Len(UpperPairs) |->
+                            [i |-> UpperPairs[q][1] - 1, j |-> UpperPairs[q][2] - 1,
+                             f |-> [l \in Li |-> Data(n)[l][UpperPairs[q][1]][UpperPairs[q][2]]]]]]
+
 \* the user re-labels an object's space (public attribute)
 Relabel(n, s) ==
     /\ steps < MaxSteps /\ Exists(n) /\ obj[n].space # s
@@ -212,6 +247,15 @@ ValueNext ==
     \/ \E n \in Names, t1 \in 0 .. R, t2 \in 0 .. R : SetItem(n, t1, t2) \/ GetItem(n, t1, t2)
     \/ \E n \in Names, t1 \in 1 .. R, t2 \in 1 .. R : AugItem(n, t1, t2)
 
+\* accessors interleaved with the writes whose effect they must show (and with a Wrap, so that a shared buffer is read too)
+AccessNext ==
+    \/ \E n \in Names, i \in 0 .. R, j \in 0 .. R : GetIdx(n, i, j)
+    \/ \E n \in Names, l \in Li : GetMatrix(n, l) \/ SetMatrix(n, l)
+    \/ \E n \in Names, d \in BOOLEAN : IterPairs(n, d)
+    \/ \E n \in Names, t1 \in 1 .. R, t2 \in 1 .. R : SetItem(n, t1, t2) \/ AugItem(n, t1, t2)
+    \/ \E n \in Names : Wrap(n) \/ GetCopy(n)
+    \/ \E op \in {"add", "mul"} : Bin(op, "X", "ma", "Y", TRUE)
+
 \* the further operand kinds, one operation deep
 KindNext == \E op \in Ops, n \in Names, k \in MoreKinds, ip \in BOOLEAN : Bin(op, n, k, "-", ip)
 
@@ -227,6 +271,24 @@ TypeOK == /\ \A n \in Names : obj[n].buf \in 0 .. NB
 Canonical == \A b \in 1 .. NB : heap[b] # <<>> <=> \E n \in Names : obj[n].buf = b
 
 InvertIsInverse == last.act = "Invert" => last.product = Ident
+
+\* iteration visits each unordered pair exactly once, in type-list order, and hands out what is stored
+IterVisitsEachPairOnce ==
+    last.act = "IterPairs" =>
+        /\ Len(last.out) = (R * (R + 1)) \div 2
+        /\ \A q \in 1 .. Len(last.out) : last.out[q].i <= last.out[q].j
+        /\ \A q, p \in 1 .. Len(last.out) : q < p =>
+              (last.out[q].i < last.out[p].i \/ (last.out[q].i = last.out[p].i /\ last.out[q].j < last.out[p].j))
+        /\ \A q \in 1 .. Len(last.out) : \A l \in Li :
+              last.out[q].f[l] = Data(last.lhs)[l][last.out[q].i + 1][last.out[q].j + 1]
+\* reads do not write
+AccessorsArePure ==
+    [][last'.act \in {"GetIdx", "GetMatrix", "IterPairs", "GetItem"} => (heap' = heap /\ obj' = obj)]_<<vars, last>>
+\* setMatrix touches exactly one matrix of exactly one buffer
+SetMatrixLocal ==
+    [][last'.act = "SetMatrix" =>
+          \A b \in 1 .. NB : \A l \in Li :
+              (heap[b] # <<>> /\ heap'[b] # <<>> /\ ~(b = obj[last'.lhs].buf /\ l = last'.l + 1)) => heap'[b][l] = heap[b][l]]_<<vars, last>>
 
 \* out-of-place results and copies never share memory with an operand; in-place operations
 \* modify only the left operand's buffer
